@@ -11,7 +11,9 @@ within tolerance, iter / not_positive_definite / done() exactly.  Complex Hermit
 are compared through the real embedding  [[Re A, -Im A], [Im A, Re A]],  v -> [Re v; Im v].
 
 Oracle (on the implementation, numpy): Krylov least-squares optimum for every prefix,
-monotone A-norm error, tracked residual = b - A x, in-place update of the caller's array,
+monotone A-norm error, tracked residual = b - A x, in-place update of the caller's array
+(contents of the caller's array after every update; also single-precision x0 with a double-precision
+system: mixed runs, compared with the binary64 model with a widened tolerance on x only),
 breakdown on matrices that are not positive definite.
 """
 import json
